@@ -52,14 +52,19 @@ func NewNCFake() *NCFake { return &NCFake{Alive: true} }
 
 var errNCDead = fmt.Errorf("verif: transport closed: EOF")
 
-func okReply(warn bool) *types.NetconfResponse {
+func okReply(warn bool, noMsg ...bool) *types.NetconfResponse {
 	d := etree.NewDocument()
 	r := d.CreateElement("rpc-reply")
 	if warn {
 		e := r.CreateElement("rpc-error")
 		e.CreateElement("error-type").SetText("application")
 		e.CreateElement("error-severity").SetText("warning")
-		e.CreateElement("error-message").SetText("verif: statement has no effect")
+		if len(noMsg) > 0 && noMsg[0] {
+			// error-message is optional (RFC 6241 4.3)
+			e.CreateElement("error-path").SetText("/plain")
+		} else {
+			e.CreateElement("error-message").SetText("verif: statement has no effect")
+		}
 	}
 	r.CreateElement("ok")
 	return types.NewNetconfResponse(d)
@@ -95,14 +100,18 @@ func (f *NCFake) EditConfig(tgt string, doc string) (*types.NetconfResponse, err
 	}
 	k := f.take(&f.Fault.Edit)
 	switch k {
-	case "ok", "warn":
+	case "ok", "warn", "warn-nomsg":
 		if tgt == "candidate" {
 			f.Pending = append(f.Pending, doc)
 		} else {
 			f.Running = append(f.Running, doc)
 		}
+		noMsg := k == "warn-nomsg"
+		if noMsg {
+			k = "warn"
+		}
 		f.rec(NCCall{Op: "EditConfig", Target: tgt, Doc: doc, Result: k})
-		return okReply(k == "warn"), nil
+		return okReply(k == "warn", noMsg), nil
 	case "eof":
 		if tgt == "candidate" {
 			f.Pending = append(f.Pending, "PARTIAL:"+doc)
@@ -115,6 +124,10 @@ func (f *NCFake) EditConfig(tgt string, doc string) (*types.NetconfResponse, err
 			f.Pending = append(f.Pending, "PARTIAL:"+doc)
 		}
 		f.rec(NCCall{Op: "EditConfig", Target: tgt, Doc: doc, Result: "err"})
+		if k == "timeout" {
+			// the session is still alive, the operation ran into the driver's timeout (scrapligo's wording)
+			return nil, fmt.Errorf("errTimeoutError: channel timeout sending input to device")
+		}
 		return nil, fmt.Errorf("operation failed: <rpc-error><error-severity>error</error-severity><error-message>verif: bad element</error-message></rpc-error>")
 	}
 }
@@ -139,6 +152,12 @@ func (f *NCFake) Commit() error {
 		return errNCDead
 	default:
 		f.rec(NCCall{Op: "Commit", Result: "err"})
+		if k == "timeout" {
+			return fmt.Errorf("errTimeoutError: channel timeout reading from device")
+		}
+		if k == "conn" {
+			return fmt.Errorf("errConnectionError: encountered error output during in channel write, error: resource temporarily unavailable")
+		}
 		return fmt.Errorf("operation failed: commit refused by the device")
 	}
 }
